@@ -70,3 +70,20 @@ pub fn class_table_order<S: Src>(s: &mut S) {
     let j = s.below(10);
     check!(s, NAME_TABLE[j as usize] as u8 == j, "C06.class_table_order.name_index");
 }
+
+/// native only (concretiser body): the rank reported for a hand describes its actual cards
+pub fn cards_link_native<S: Src>(s: &mut S) {
+    use super::c13::{draw_hand5, same_suit, sort5_desc};
+    use crate::spec::card::all_distinct;
+    use ckc_rs::cards::five::Five;
+    use ckc_rs::cards::HandRanker;
+    let (r, su, w) = draw_hand5(s);
+    assume!(s, all_distinct(&w));
+    let t = sort5_desc(&r);
+    let (cat, idx) = semantic_class(&t, same_suit(&su));
+    let hr = Five::from(w).hand_rank();
+    check!(s, hr.name == NAME_TABLE[cat as usize], "C06.cards_link.category_describes_cards");
+    check!(s, hr.class == CLASS_TABLE[idx as usize].0, "C06.cards_link.class_describes_cards");
+    check!(s, hr.value == ordinal(&t, same_suit(&su)), "C06.cards_link.value");
+    check!(s, hr.is_a_valid_hand_rank() && !hr.is_invalid(), "C06.cards_link.consistent");
+}
